@@ -23,6 +23,7 @@ from pedal.sandbox.constants import TOOL_NAME
 from pedal.sandbox.feedbacks import runtime_error, EXCEPTION_FF_MAP
 from pedal.sandbox.exceptions import SandboxHasNoFunction, SandboxHasNoVariable
 from pedal.sandbox.timeout import timeout
+from pedal.sandbox.timeout import _verif_sync
 from pedal.sandbox.result import SandboxResult
 from pedal.sandbox.tracer import TRACER_STYLES
 
@@ -160,6 +161,7 @@ class Sandbox:
             return timeout(self.allowed_time, self._execute,
                            code, filename, kind, False, **meta)
         except TimeoutError as timeout_exception:
+            _verif_sync("timeout.handler")
             # The abandoned thread no longer touches this sandbox (see
             # _was_terminated), so the cleanup and the report happen here.
             self._stop_mocking(self._context[-1])
@@ -198,6 +200,7 @@ class Sandbox:
         # NOTE: https://docs.python.org/3/library/exceptions.html#SystemExit
         # This exception does not inherit from Exception and has to be caught separately
         except SystemExit as system_exit:
+            _verif_sync("execute.systemexit")
             if self._was_terminated():
                 return self
             self._stop_mocking(context)
